@@ -190,8 +190,8 @@ class Job:
         if h is None:
             raise SystemExit2("harness %s not found in build %s" % (self.spec.harness, self.build.name))
         self.meta = h
-        want = set(self.spec.stubs or [])
-        have = set(s["original"] for s in h["attributes"].get("stubs", []))
+        want = set(x.replace(" ", "") for x in (self.spec.stubs or []))
+        have = set(s["original"].replace(" ", "") for s in h["attributes"].get("stubs", []))
         self.res["stubs"] = sorted(have)
         if not want <= have:
             raise SystemExit2("harness %s: expected stubs %s missing (have %s)" % (self.spec.harness, sorted(want - have), sorted(have)))
